@@ -46,7 +46,7 @@ COverflows == /\ Ev("Overflows") /\ Adv
               /\ UNCHANGED <<appended, handed, dropEnded, lateAppend, closed>>
 Skip == /\ l <= N
         /\ Rec[l].ev \in {"AppStart", "Report", "Flush", "FlushReq", "FlushDone", "DropStart",
-                          "SinkDrop", "Quiesce", "Forget", "SinkClone", "SelfMetrics", "SubInstalled"}
+                          "SinkDrop", "Quiesce", "Forget", "SinkClone", "SelfMetrics", "SubInstalled", "BurstBegin", "BurstEnd"}
         /\ Adv /\ UNCHANGED <<appended, handed, dropEnded, lateAppend, closed>>
 
 CNext_ == CReset \/ CAppEnd \/ CNext \/ CClose \/ CDropEnd \/ COverflows \/ Skip
